@@ -30,10 +30,17 @@ def run_one(scen):
     t0 = time.time()
     res = {"id": scen["id"], "family": scen.get("family"), "ok": True}
     try:
+        if scen.get("malformed"):
+            res.update(cmds=[], out=[], steps=0, unrep="malformed-probe", compile_error=None,
+                       findings=malformed_probe(scen), stats={})
+            res["wall"] = time.time() - t0
+            return res
         run = impl_trace.Run(scen, step_timeout=scen.get("step_timeout", 6))
         n = drive(run, scen)
         run.twin = None
         run.c13 = None
+        if scen.get("probes", {}).get("c17") and run.env is not None:
+            run.c17_findings = c17_twin(run, scen)
         if scen.get("probes", {}).get("c13") and run.env is not None and scen["policy"]["kind"] != "multi":
             run.c13 = c13_twins(run, scen)
         if scen.get("probes", {}).get("shift") and run.env is not None and scen["policy"]["kind"] != "multi":
@@ -77,6 +84,66 @@ def drive(run, scen):
             run.probe_reset()
     run.end()
     return n
+
+
+def malformed_probe(scen):
+    """C16: a document with one defect must be rejected with one of the library's own error types"""
+    import impl_trace
+    import signal
+    from jobshoplab.compiler import Compiler
+    from jobshoplab.compiler.repos import DslStrRepository
+    from jobshoplab.utils.exceptions import JobShopException
+    cfg = impl_trace.make_config(scen["cfg"])
+    kind = scen["malformed"]
+    signal.signal(signal.SIGALRM, impl_trace._alarm)
+    signal.alarm(20)
+    try:
+        repo = DslStrRepository(scen["dsl"], "warning", cfg)
+        Compiler(cfg, "warning", repo=repo).compile()
+    except JobShopException:
+        return []
+    except impl_trace.StepTimeout:
+        return [{"property": "C16", "sig": f"malformed-hangs:{kind}", "detail": "compile did not return", "step": None,
+                 "scenario": scen["id"], "facts": {"always": True}}]
+    except Exception as e:  # noqa
+        return [{"property": "C16", "sig": f"malformed-foreign-exception:{kind}:{type(e).__name__}", "detail": repr(e)[:300],
+                 "step": None, "scenario": scen["id"], "facts": {"always": True}}]
+    finally:
+        signal.alarm(0)
+    return [{"property": "C16", "sig": f"malformed-accepted:{kind}", "detail": "compiled without complaint", "step": None,
+             "scenario": scen["id"], "facts": {"always": True}}]
+
+
+def c17_twin(run, scen):
+    """C17: the same text compiled again – here, and twice in a fresh interpreter with another hash
+    seed – gives the same instance and initial state"""
+    import impl_trace
+    import proto
+    from jobshoplab.compiler import Compiler
+    from jobshoplab.compiler.repos import DslStrRepository
+    mine = [l for l in run.compiler.header if not l.startswith("ORC ")]
+    out = []
+    repo = DslStrRepository(scen["dsl"], "warning", run.cfg)
+    inst, st = Compiler(run.cfg, "warning", repo=repo).compile()
+    again = [l for l in proto.header_lines(inst, st)[0] if not l.startswith("ORC ")]
+    if again != mine:
+        d = next((i for i, (a, b) in enumerate(zip(mine, again)) if a != b), min(len(mine), len(again)))
+        out.append({"sig": "recompile-differs:same-process", "detail": f"line {d}: {mine[d:d+1]} vs {again[d:d+1]}", "step": None})
+    if inst != run.instance or st != run.init_state:
+        out.append({"sig": "recompile-not-equal:same-process", "detail": "dataclass equality of instance / initial state", "step": None})
+    try:
+        env = dict(os.environ, PYTHONHASHSEED=str(scen["probes"]["c17"] % 4000 + 1))
+        p = subprocess.run([sys.executable, os.path.join(HERE, "twin_c17.py")], input=json.dumps(dict(dsl=scen["dsl"], cfg=scen["cfg"])),
+                           capture_output=True, text=True, timeout=120, env=env)
+        if p.returncode == 0:
+            for k, other in enumerate(json.loads(p.stdout)):
+                if other != mine:
+                    d = next((i for i, (a, b) in enumerate(zip(mine, other)) if a != b), min(len(mine), len(other)))
+                    out.append({"sig": "recompile-differs:other-process", "detail": f"compile #{k}: line {d}: {mine[d:d+1]} vs {other[d:d+1]}", "step": None})
+                    break
+    except Exception:  # noqa  (harness problem, not a statement about the property)
+        pass
+    return out
 
 
 def c13_twins(run, scen):
